@@ -75,6 +75,25 @@ func genVals(bits int, max int) *rapid.Generator[[]uint64] {
 			}
 			return out
 		}
+		if rapid.IntRange(0, 5).Draw(t, "sortedRepeats") == 0 {
+			// an ascending batch with repeats and gaps in a small window (a run that is not a run)
+			start := genVal(bits).Draw(t, "start")
+			n := rapid.IntRange(3, 7).Draw(t, "n")
+			offs := make([]int, n)
+			for i := range offs {
+				offs[i] = rapid.IntRange(0, n).Draw(t, "off")
+			}
+			sort.Ints(offs)
+			out := make([]uint64, 0, n)
+			for _, o := range offs {
+				v := start + uint64(o)
+				if bits == 32 {
+					v &= 0xffffffff
+				}
+				out = append(out, v)
+			}
+			return out
+		}
 		return rapid.SliceOfN(genVal(bits), 0, max).Draw(t, "vals")
 	})
 }
